@@ -817,6 +817,9 @@ class Interp:
                     st.env[ov] = o.w(states=frozenset([c]) if c else STATES)
                 self.mutation(target, ov, target.attr, 'store', getattr(target._parent, 'value', None), st)
             else:
+                if is_self_attr(target):
+                    val = getattr(target._parent, 'value', None)
+                    self.ev_event('engine_field_store', target, field=target.attr, secrets=self.secret_parts(val, st) if val is not None else [])
                 b = self.ev_quiet(target.value, st)
                 if isinstance(b, V) and b.tag == 'proj' and (b.a.startswith('elem:') or b.a.startswith('field:')):
                     self.mutation(target, b.b, b.a.split(':', 1)[1] + '.' + target.attr, 'store', getattr(target._parent, 'value', None), st)
